@@ -47,7 +47,7 @@ def run_selftests(pid):
     jobs = [(p, False) for p in sorted(glob.glob(os.path.join(ir.VERIF, 'selftest', 'mutants', pid.lower() + '_*.patch')))]
     jobs += [(p, True) for p in sorted(glob.glob(os.path.join(ir.VERIF, 'selftest', 'benign', pid.lower() + '_*.patch')))]
     res = []
-    with concurrent.futures.ThreadPoolExecutor(max_workers=6) as ex:
+    with concurrent.futures.ThreadPoolExecutor(max_workers=int(os.environ.get('VERIF_SELFTEST_WORKERS') or 6)) as ex:
         for name, ok, msg in ex.map(lambda j: _selftest_one(pid, j[0], j[1]), jobs):
             res.append({'patch': name, 'ok': ok, 'detail': msg})
     return res
